@@ -34,7 +34,8 @@ impl Wake for Flag {
 
 /// case: 16 1 order i_ms t_ms events..   order 0: interval then timeout; 1: timeout then interval
 /// event: 0 ms  = advance the clock by ms and run the task;  1 = a Pong arrives;  2 = poll a pending get_datagram;
-/// 3 ms = advance the clock by ms, a Pong arrives, and only then the task runs (tick and unread Pong in one poll)
+/// 3 ms = advance the clock by ms, a Pong arrives, and only then the task runs (tick and unread Pong in one poll);
+/// 4 = the peer sends a Ping of its own
 /// output per event: npings_emitted closed(0/1) done_code(0 none, 1 Ok, 100+e) [dgram result for event 2]
 fn run_case(c: &[u64]) -> Vec<u64> {
     if c.len() < 3 {
@@ -100,6 +101,19 @@ fn run_case(c: &[u64]) -> Vec<u64> {
                     {
                         let mut s = ws.lock().unwrap();
                         s.inbox.push_back(Message::Pong);
+                        if let Some(w) = s.rx_waker.take() {
+                            w.wake();
+                        }
+                    }
+                    flag.0.store(true, std::sync::atomic::Ordering::SeqCst);
+                    settle(&mut task, &mut o);
+                }
+                4 => {
+                    // the peer sends a Ping of its own (it proves nothing about our pings being answered)
+                    k += 1;
+                    {
+                        let mut s = ws.lock().unwrap();
+                        s.inbox.push_back(Message::Ping);
                         if let Some(w) = s.rx_waker.take() {
                             w.wake();
                         }
@@ -187,6 +201,10 @@ fn g_case(r: &mut Rng) -> Vec<u64> {
         }
         if r.chance(1, 5) {
             c.push(2);
+        }
+        if r.chance(1, 4) {
+            // the peer's own keepalive: pings arrive whether or not it answers ours
+            c.push(4);
         }
     }
     c.push(2);
